@@ -56,6 +56,9 @@ def makeBigs (n : Int) : Option (List Int) := if n < 0 then none else some (List
 def bBit (x : Int) (i : Int) : Option Int :=
   if i < 0 then none else some (if x.toNat.testBit i.toNat then 1 else 0)
 
+/-- `make([][]Op, n)`: `n` nil slices; panics when `n` is negative -/
+def makeOpLists (n : Int) : Option (List (List GOp)) := if n < 0 then none else some (List.replicate n.toNat [])
+
 /-- `new(big.Int).Mul(x, y)` -/
 def bMul (x y : Int) : Int := x * y
 
